@@ -1,10 +1,14 @@
 /-
   C03 — every `go` is answered by exactly one legal, well-formed bestmove (logic part).
   Proved: what the search thread can send, what the polling loop returns, what the dispatcher
-  prints.  Legality of the root successors themselves is C01/C02; that real threads realise some
+  prints.  With C01 (`generateMoves_sound`): `sent_moves_are_legal` — every board the search thread
+  of the chess instance hands back, at every point of every run, carries a move that is LEGAL in the
+  root position and is the specification's position after it.  That real threads realise some
   schedule of the polling model is observed black-box.
 -/
 import Walleye.Props.C08
+import Walleye.Proofs.GenSound
+import Walleye.Model.SearchChess
 namespace Walleye
 open Str
 
@@ -21,6 +25,19 @@ theorem inner_search_is_silent {P O : Type} (g : Game P) (ord : Oracle P O) (fue
     (d ply : Nat) (a b : Int) (n : Bool) (s : SS P O) :
     (outState (alphaBeta g ord fuel p d ply a b n s)).reports = s.reports :=
   alphaBeta_silent g ord fuel p d ply a b n s
+
+/-- every board the search of the chess instance sends carries a legal move of the root position
+    (any clock expiry, any ordering oracle that returns a sub-list, whatever the outcome) -/
+theorem sent_moves_are_legal {O : Type} (h : Hasher) (ord : Oracle Pos O) (hord : OrdSub ord) (fuel : Nat)
+    (root : Pos) (wf : WFp root) (s : SS Pos O) (hs : s.reports = #[]) :
+    ∀ q, Report.sent q ∈ (outState (getBestMove (chessGame h) ord fuel root s)).reports.toList →
+      Spec.legal (abs root) (moveOf q) = true ∧ abs q = Spec.apply (abs root) (moveOf q) := by
+  intro q hq
+  obtain ⟨m, hm, hor⟩ := getBestMove_sends_root_successors (chessGame h) ord hord fuel root s hs q hq
+  have hsound := generateMoves_sound h root wf m hm
+  rcases hor with rfl | rfl
+  · exact hsound
+  · exact hsound
 
 variable (h : Hasher) (search : Pos → DrawTable → Nat → Option Pos)
 
